@@ -262,5 +262,6 @@ func Bodies(seed int64) []Body {
 		demuxDataBody("demux-data:pool-capacity-boundary", checks.PoolBoundaryStream(seed)),
 		demuxPacketBody("demux-packets:pid-classes", checks.PIDClassesStream(seed).Bytes),
 		plainAutoBody("demux-auto-detection-on-plain-readers", ss[0].Bytes, ss[1].Bytes),
+		demuxDataBody("demux-data:multi-section-units", checks.MultiSectionStream(seed).Bytes),
 	}
 }
